@@ -107,6 +107,14 @@ func (r *Rng) spareFloats(n int) ([]float64, int) {
 	for i := range buf {
 		buf[i] = r.anyBits()
 	}
+	if r.chance(1, 10) {
+		// every value the same special bit pattern (all the canonical NaN: the WKB stand-in for an
+		// empty point — but here they are coordinates like any other)
+		v := math.Float64frombits(specialBits[r.Intn(len(specialBits))])
+		for i := range buf {
+			buf[i] = v
+		}
+	}
 	return buf, n + extra
 }
 
